@@ -740,7 +740,24 @@ def tolerance_branch_clamps(ctx):
             continue
         for r in rets:
             v = r.value
-            ok = isinstance(v, ast.Call) and dotted(v.func) == 'clamp' and len(v.args) == 3 and 'min' in src(v.args[0]) and 'max' in src(v.args[2])
+            ok = isinstance(v, ast.Call) and dotted(v.func) == 'clamp' and len(v.args) == 3 and 'self.min' in src(v.args[0]) and 'self.max' in src(v.args[2])
+            if isinstance(v, ast.Call) and dotted(v.func) == 'clamp' and len(v.args) == 3 and not ok:
+                # the bounds may be bound to locals first: they have to be computed from the LIVE limits (self.min / self.max), not
+                # from something remembered at construction time (the limits are properties that configuration overrides change)
+                lo = ' '.join(src(o) for o in origins(v.args[0], f.node))
+                hi = ' '.join(src(o) for o in origins(v.args[2], f.node))
+                for nm in [x for x in (v.args[0], v.args[2]) if isinstance(x, ast.Name)]:
+                    for val, st, how in local_assigns(f.node, nm.id):
+                        if how in ('unpack', 'assign') and val is not None:
+                            lo += ' ' + src(val)
+                            hi += ' ' + src(val)
+                if 'self.min' in lo and 'self.max' in hi:
+                    ok = True
+                else:
+                    ctx.bad(f'{f.qualname}:tolerance branch returns a clamped value', r, f'`{src(v)}` clamps with bounds that are not computed from self.min / self.max '
+                            f'at the time of the call ({lo.strip() or "?"} / {hi.strip() or "?"}): limits changed after construction (a configured max, a parameter override) '
+                            'are checked by the range test but the value is clamped to the OLD limits - a value outside the declared set is returned', f)
+                    continue
             nest = isinstance(v, ast.Call) and dotted(v.func) in ('min', 'max') and any(isinstance(x, ast.Call) and dotted(x.func) in ('min', 'max') for x in v.args)
             if ok or nest:
                 ctx.ok(f'{f.qualname}:tolerance branch returns a clamped value', r, src(v), f)
